@@ -5,7 +5,7 @@
     reserved-slot guard of [del] and the index arithmetic of [add] are the GENERATED functions of
     coq/Gen/SrcWaker.v.  Same assumption A-SC as C11. *)
 From Coq Require Import ZArith List Bool.
-From Stk Require Import Lib.U Gen.SrcWaker W.Waker W.WakerCore W.WakerRefine W.WakerProofs W.WakerDrop.
+From Stk Require Import Lib.U Gen.SrcWaker W.Waker W.WakerCore W.WakerRefine W.WakerProofs W.WakerDrop W.WakerSlot.
 Import ListNotations.
 Local Open Scope Z_scope.
 
@@ -51,3 +51,28 @@ Print Assumptions C12_drop_list_covered.
 Theorem C12_drops_not_stranded : forall st, reachable st -> quiescent st -> dl st = [].
 Proof. exact drops_not_stranded. Qed.
 Print Assumptions C12_drops_not_stranded.
+
+(** Identity of Wakers (invariant [SlInv], coq/W/WakerSlot.v).  A slot is *claimed* by a handler identity while
+    its Waker is live: a registered plain waker, an open channel, or a Waker whose [drop] has not pushed the slot
+    to the drop list yet.  [pipeline st] = drop list ++ the drops the main thread has taken and not yet deleted.
+
+    A live Waker keeps its slot and its handler, and the slot is not queued for deletion: dropping or waking
+    another Waker never removes, replaces or deletes its handler. *)
+Theorem C12_live_waker_keeps_slot : forall st x h,
+  reachable st -> claimed st x h -> slab_get (sl st) x = Some h /\ ~ In x (pipeline st).
+Proof. exact live_waker_keeps_slot. Qed.
+Print Assumptions C12_live_waker_keeps_slot.
+
+(** Only slots of dropped Wakers are queued for deletion, each once, and they are still occupied when [del]
+    reaches them: [deleted = true] goes to the dropped Waker's own handler, exactly once, and a Waker that
+    later reuses the slot is a different, fresh entry ([C12_add_slots]). *)
+Theorem C12_deleted_only_dropped : forall st x,
+  reachable st -> In x (pipeline st) ->
+  (forall h, ~ claimed st x h) /\ (exists h, slab_get (sl st) x = Some h) /\ NoDup (pipeline st).
+Proof. exact deleted_only_dropped. Qed.
+Print Assumptions C12_deleted_only_dropped.
+
+(** A Waker identity is live at most once and its drop is pushed at most once. *)
+Theorem C12_dropped_at_most_once : forall st h, reachable st -> (regsrc st h + npush st h <= 1)%nat.
+Proof. exact dropped_at_most_once. Qed.
+Print Assumptions C12_dropped_at_most_once.
